@@ -57,6 +57,102 @@ func inTheoremShape(env *codecgen.Env) bool {
 	return true
 }
 
+// sharedHolder: p is a oneof property living in a sub-message (non-empty proto path) that other
+// properties of the same list live in too (its path is a proper prefix of theirs): the exposed oneof of
+// a flattened object. Mirrors CodecSharedHolder.shared_holder_b.
+func sharedHolder(s *codecgen.Schema, p *codecgen.Prop) bool {
+	if p.Ty == nil || p.Ty.Class != "oneof" || len(p.Path) == 0 {
+		return false
+	}
+	for _, q := range s.Props {
+		if q == p || len(q.Path) <= len(p.Path) {
+			continue
+		}
+		pre := true
+		for i := range p.Path {
+			if q.Path[i] != p.Path[i] {
+				pre = false
+			}
+		}
+		if pre {
+			return true
+		}
+	}
+	return false
+}
+
+// holderWithoutMember reports whether somewhere in m (walked along env from schema name) a
+// shared-holder oneof has its holder message present while none of its members is populated: the codec
+// writes "x":{} there, which the hoisted view of the schema (an exposed oneof of the parent, omitted
+// when no member is set) does not describe. Any payloads are not entered (another environment).
+func holderWithoutMember(env *codecgen.Env, name string, m protoreflect.Message) bool {
+	s := env.Lookup(name)
+	if s == nil {
+		return false
+	}
+	var inTy func(t *codecgen.Ty, fd protoreflect.FieldDescriptor, v protoreflect.Value) bool
+	single := func(t *codecgen.Ty, v protoreflect.Value) bool {
+		if t == nil || (t.Class != "object" && t.Class != "oneof") {
+			return false
+		}
+		return holderWithoutMember(env, t.Ref, v.Message())
+	}
+	inTy = func(t *codecgen.Ty, fd protoreflect.FieldDescriptor, v protoreflect.Value) bool {
+		if t == nil {
+			return false
+		}
+		switch t.Class {
+		case "object", "oneof":
+			return single(t, v)
+		case "array":
+			for i := 0; i < v.List().Len(); i++ {
+				if single(t.Item, v.List().Get(i)) {
+					return true
+				}
+			}
+		case "map":
+			found := false
+			v.Map().Range(func(_ protoreflect.MapKey, mv protoreflect.Value) bool {
+				if single(t.Item, mv) {
+					found = true
+				}
+				return !found
+			})
+			return found
+		}
+		return false
+	}
+	for _, p := range s.Props {
+		if len(p.Path) == 0 { // exposed oneof of this message: members live in m itself
+			if p.Ty != nil && p.Ty.Class == "oneof" && holderWithoutMember(env, p.Ty.Ref, m) {
+				return true
+			}
+			continue
+		}
+		fd, v, ok := propValue(p, m)
+		if !ok {
+			continue
+		}
+		if sharedHolder(s, p) {
+			any := false
+			if os := env.Lookup(p.Ty.Ref); os != nil {
+				for _, q := range os.Props {
+					if _, _, set := propValue(q, v.Message()); set {
+						any = true
+					}
+				}
+			}
+			if !any {
+				return true
+			}
+		}
+		if inTy(p.Ty, fd, v) {
+			return true
+		}
+	}
+	return false
+}
+
 // loadTargets: the fixed roots, then the randomly generated schemas of this run (generated = the
 // targets from index nFixed on).
 func loadTargets(cfg *vh.Config, res *vh.Result) (ts []*target, nFixed int, err error) {
